@@ -1,5 +1,8 @@
 (** C12 — I/O failures are reported, never turned into success. *)
 From ZV Require Import Base.Bytes Io.Faults Io.FaultsProofs.
+From ZV Require Import Gen.GenConsts Format.Header Format.ParseProofs Format.ParseExamples Read.Scan Read.ScanProofs
+                       Dl.Copy Dl.CopyProofs Io.ScanFaults Io.ScanFaultsProofs Io.CopyFaults Io.CopyFaultsProofs
+                       Io.ScanReseek Io.ScanReseekProofs.
 Local Open Scope N_scope.
 
 (** write_data (one retry after a short write) returns true only if exactly the data
@@ -44,3 +47,225 @@ Proof. vm_compute. reflexivity. Qed.
 Example C12_ex_temp_read_error_fails :
   fst (writer_run [] true [RErr] [] [[1;2;3]] [9]) = false.
 Proof. vm_compute. reflexivity. Qed.
+
+(** * Validation and local chunk reuse under fault schedules (Io/ScanFaults.v, Io/CopyFaults.v)
+
+    [validate_checksums_f] / [validate_data_f] / [copy_chunks_f] are the models of Read/Scan.v
+    and Dl/Copy.v with every read / write / lseek routed through a schedule and the contexts'
+    error states explicit.  A schedule is universally quantified in every theorem below. *)
+
+(** under the empty schedule they are the fault-free models (to which C09 / C08 apply) *)
+Theorem C12_scan_faultfree : forall (H : N -> bytes -> bytes) h f fl st,
+  data_offset h <> 0 ->
+  validate_checksums_f H h f fl st [] [] false =
+  match validate_checksums H h f fl st with Some r => Some (mkF r [] [] false) | None => None end.
+Proof. exact validate_checksums_f_faultfree. Qed.
+Print Assumptions C12_scan_faultfree.
+
+Theorem C12_data_faultfree : forall (H : N -> bytes -> bytes) h f fl st,
+  data_offset h <> 0 ->
+  validate_data_f H h f fl st [] [] false =
+  match validate_data H h f fl st with Some r => Some (mkF r [] [] false) | None => None end.
+Proof. exact validate_data_f_faultfree. Qed.
+Print Assumptions C12_data_faultfree.
+
+Theorem C12_copy_faultfree : forall (H : N -> bytes -> bytes) sh sf th tf fl,
+  copy_chunks_f H sh sf th tf fl clean =
+  match copy_chunks H sh sf th tf fl with
+  | Some (fl', tf', sf') => Some (true, fl', tf', sf', clean)
+  | None => None
+  end.
+Proof. exact copy_chunks_f_faultfree. Qed.
+Print Assumptions C12_copy_faultfree.
+
+(** T12.scan for EVERY schedule of read and lseek outcomes and any initial error state:
+    zck_validate_checksums / zck_find_valid_chunks return 1 only if the specification of
+    C09 says 1 for this file (every chunk and the data digest match) ... *)
+Theorem C12_scan_success_is_real : forall (H : N -> bytes -> bytes) h f fl st rs ss err r,
+  scan_wf h f ->
+  validate_checksums_f H h f fl st rs ss err = Some r -> s_ret (f_res r) = 1%Z ->
+  fst (spec_op H h f OpValidate fl) = 1%Z.
+Proof. exact scan_f_success_real. Qed.
+Print Assumptions C12_scan_success_is_real.
+
+(** ... and then the flags are exactly the fault-free flags and no error state is left *)
+Theorem C12_scan_success_flags : forall (H : N -> bytes -> bytes) h f fl st rs ss err r,
+  scan_wf h f -> h_detached h = false ->
+  validate_checksums_f H h f fl st rs ss err = Some r -> s_ret (f_res r) = 1%Z ->
+  expected_ret H h f = 1%Z /\ s_flags (f_res r) = expected_flags H h f /\ f_err r = false.
+Proof. exact scan_f_success_full. Qed.
+Print Assumptions C12_scan_success_flags.
+
+(** zck_validate_data_checksum returns 1 only if all data is present and the data digest
+    matches (with the uncompressed-source flag: only if the scan would) *)
+Theorem C12_data_success_is_real : forall (H : N -> bytes -> bytes) h f fl st rs ss err r,
+  scan_wf h f ->
+  validate_data_f H h f fl st rs ss err = Some r -> s_ret (f_res r) = 1%Z ->
+  fst (spec_op H h f OpData fl) = 1%Z.
+Proof. exact data_f_success_real. Qed.
+Print Assumptions C12_data_success_is_real.
+
+(** the individual flags: with read errors (any errno) and lseek failures as the only faults,
+    every flag 1 the scan leaves belongs to a chunk whose stored bytes match (or the call
+    returned before touching the flags) *)
+Theorem C12_scan_flags_sound_without_short_reads : forall (H : N -> bytes -> bytes) h f fl st rs ss err r,
+  scan_wf h f -> h_detached h = false -> only_errors rs ->
+  validate_checksums_f H h f fl st rs ss err = Some r ->
+  s_flags (f_res r) = fl \/ flags_sound H h f (s_flags (f_res r)).
+Proof. exact scan_f_flags_sound. Qed.
+Print Assumptions C12_scan_flags_sound_without_short_reads.
+
+(** T12.copy for EVERY schedule of read / write / lseek outcomes and any initial error states:
+    the source is unchanged; the target never shrinks and keeps its header and every byte
+    outside the extents of the fillable chunks; a chunk that becomes valid lies inside the
+    target file and its bytes there hash (target checksum type) to the target's digest —
+    what reached the file through (possibly short, retried or failed) writes is what was
+    hashed; when the call ran (no error state at entry) every chunk satisfies [chunk_post]. *)
+Theorem C12_copy_any_schedule : forall (H : N -> bytes -> bytes) sh sf th tf fl st ret fl' tf' sf' st',
+  known (h_chash sh) -> known (h_chash th) -> starts_ok 0 (h_chunks th) ->
+  copy_chunks_f H sh sf th tf fl st = Some (ret, fl', tf', sf', st') ->
+  sf' = sf /\ len tf <= len tf' /\
+  (forall x, x < data_offset th -> fget tf' x = fget tf x) /\
+  (forall x, (forall i tc, nth_error (h_chunks th) i = Some tc -> fillable sh th tc (nth i fl 0%Z) ->
+                           ~ in_ext th tc x) -> fget tf' x = fget tf x) /\
+  (forall i tc, nth_error (h_chunks th) i = Some tc ->
+                nth i fl 0%Z <> 1%Z -> nth i fl' 0%Z = 1%Z -> good_extent H th tc tf') /\
+  (ret = true -> forall i tc, nth_error (h_chunks th) i = Some tc ->
+                 chunk_post H sh th tc (nth i fl 0%Z) (nth i fl' 0%Z) tf').
+Proof. exact copy_chunks_f_sound. Qed.
+Print Assumptions C12_copy_any_schedule.
+
+Theorem C12_copy_total : forall (H : N -> bytes -> bytes) sh sf th tf fl st,
+  copy_chunks_f H sh sf th tf fl st <> None.
+Proof. exact copy_chunks_f_total. Qed.
+Print Assumptions C12_copy_total.
+
+(** ** The scan's flags are NOT sound under short reads: counter-example.
+    A read that returns fewer bytes than asked although the file has more ends the chunk
+    (failed) but leaves the file position inside it, and the scan reads the following chunks
+    from there.  File: chunks "ab" and "b", stored bytes "abx"; the read of "ab" returns 1
+    byte.  Chunk 2 is then hashed over the byte 'b' of chunk 1 and flagged valid although the
+    byte stored at its offset is 'x'.  (Return value -1: the call as a whole does not report
+    success.)  Reproduced on the library: V scenario of harness/zh_c12.c, fault read:1:short:1. *)
+Definition sx_h : header :=
+  mkHeader false 3 10 20 (repeat 0 16%nat) (repeat 0 16%nat) 0 0 3 3
+           [mkChunk (repeat 0 16%nat) None 0 0 0; mkChunk (toyH 3 [97; 98]) None 2 2 0;
+            mkChunk (toyH 3 [98]) None 1 1 2] 0 0.
+Definition sx_f : bytes := repeat 7 30%nat ++ [97; 98; 120].
+
+Theorem C12_scan_flags_refuted_by_short_read :
+  exists (H : N -> bytes -> bytes) h f fl st rs r,
+    scan_wf h f /\ h_detached h = false /\
+    validate_checksums_f H h f fl st rs [] false = Some r /\
+    s_flags (f_res r) <> fl /\ ~ flags_sound H h f (s_flags (f_res r)).
+Proof.
+  exists toyH, sx_h, sx_f, [0; 0; 0]%Z, (opened sx_h), [RGive 1].
+  eexists. split; [|split; [reflexivity|split; [vm_compute; reflexivity|split]]].
+  - unfold scan_wf. split; [discriminate|]. split; [vm_compute; discriminate|]. cbn. repeat split; reflexivity.
+  - cbn [f_res s_flags]. discriminate.
+  - cbn [f_res s_flags]. intros Hs.
+    specialize (Hs 2%nat (mkChunk (toyH 3 [98]) None 1 1 2) eq_refl eq_refl).
+    vm_compute in Hs. discriminate Hs.
+Qed.
+Print Assumptions C12_scan_flags_refuted_by_short_read.
+
+Example C12_ex_scan_short_read :
+  (match validate_checksums_f toyH sx_h sx_f [0; 0; 0]%Z (opened sx_h) [RGive 1] [] false with
+   | Some r => Some (s_ret (f_res r), s_flags (f_res r), f_err r) | None => None end) = Some ((-1)%Z, [1; -1; 1]%Z, false) /\
+  (match validate_checksums_f toyH sx_h sx_f [0; 0; 0]%Z (opened sx_h) [] [] false with
+   | Some r => Some (s_ret (f_res r), s_flags (f_res r), f_err r) | None => None end) = Some ((-1)%Z, [1; 1; -1]%Z, false).
+Proof. vm_compute. split; reflexivity. Qed.
+(** a read error: every later chunk failed, error state left, the position is not restored
+    ([seek_data] returns -1, which the caller takes for success); a failing final lseek: 0 *)
+Example C12_ex_scan_read_error :
+  (match validate_checksums_f toyH sx_h sx_f [0; 0; 0]%Z (opened sx_h) [RErr] [] false with
+   | Some r => Some (s_ret (f_res r), s_flags (f_res r), f_err r, f_ss r) | None => None end)
+    = Some ((-1)%Z, [1; -1; -1]%Z, true, []) /\
+  (match validate_checksums_f toyH sx_h sx_f [0; 0; 0]%Z (opened sx_h) [] [true; false] false with
+   | Some r => Some (s_ret (f_res r), s_flags (f_res r), f_err r, r_pos (s_state (f_res r))) | None => None end)
+    = Some (0%Z, [1; 1; -1]%Z, true, 33).
+Proof. vm_compute. split; reflexivity. Qed.
+
+(** local chunk reuse under faults: a read error is taken for success and the stale (zero)
+    buffer is hashed and written — mismatch, zero-filled, failed; a short write that is
+    completed by the retry is harmless; a short write whose retry fails leaves a prefix in
+    the file and the flag untouched — and [zck_copy_chunks] still returns true, the failure
+    being visible only in the target's error state *)
+Definition cx_sh : header :=
+  mkHeader false 3 10 20 (repeat 0 16%nat) (repeat 0 16%nat) 0 0 3 3
+           [mkChunk (repeat 0 16%nat) None 0 0 0; mkChunk (toyH 3 [97; 98; 99]) None 3 3 0;
+            mkChunk (toyH 3 [100; 101]) None 2 2 3] 0 0.
+Definition cx_th : header :=
+  mkHeader false 3 12 20 (repeat 0 16%nat) (repeat 0 16%nat) 0 0 3 3
+           [mkChunk (repeat 0 16%nat) None 0 0 0; mkChunk (toyH 3 [100; 101]) None 2 2 0;
+            mkChunk (toyH 3 [97; 98; 99]) None 3 3 2] 0 0.
+Definition cx_sf : bytes := repeat 7 30%nat ++ [97; 98; 99; 100; 101].
+Definition cx_tf : bytes := repeat 8 32%nat.
+Definition cx_show (r : option (bool * list Z * bytes * bytes * cst)) :=
+  match r with Some (ret, fl, tf, _, st) => Some (ret, fl, skipn 32 tf, k_serr st, k_terr st) | None => None end.
+Example C12_ex_copy_faults :
+  cx_show (copy_chunks_f toyH cx_sh cx_sf cx_th cx_tf [1; 0; 0]%Z clean)
+    = Some (true, [1; 1; 1]%Z, [100; 101; 97; 98; 99], false, false) /\
+  cx_show (copy_chunks_f toyH cx_sh cx_sf cx_th cx_tf [1; 0; 0]%Z (mkC [RErr] [] [] false false))
+    = Some (true, [1; -1; 0]%Z, [0; 0], true, false) /\
+  cx_show (copy_chunks_f toyH cx_sh cx_sf cx_th cx_tf [1; 0; 0]%Z (mkC [] [WShort 1] [] false false))
+    = Some (true, [1; 1; 1]%Z, [100; 101; 97; 98; 99], false, false) /\
+  cx_show (copy_chunks_f toyH cx_sh cx_sf cx_th cx_tf [1; 0; 0]%Z (mkC [] [WShort 1; WErr] [] false false))
+    = Some (true, [1; 0; 0]%Z, [100], false, true) /\
+  cx_show (copy_chunks_f toyH cx_sh cx_sf cx_th cx_tf [1; 0; 0]%Z (mkC [] [] [true; false] false false))
+    = Some (true, [1; 0; 0]%Z, [], false, true).
+Proof. vm_compute. repeat split; reflexivity. Qed.
+
+(** ** The scan with the proposed fix (Io/ScanReseek.v: after a chunk that could not be read
+    completely, lseek to the start of the next chunk; return 0 if that fails).
+    It is still the scan of C09 without faults, success still means real success, and now the
+    flags are sound under EVERY schedule: a flag 1 after the call is deserved, or it was 1
+    before the call and the call returned before touching it. *)
+Theorem C12_fixed_scan_faultfree : forall (H : N -> bytes -> bytes) h f fl st,
+  scan_wf h f ->
+  validate_checksums_r H h f fl st [] [] false =
+  match validate_checksums H h f fl st with Some r => Some (mkF r [] [] false) | None => None end.
+Proof. exact validate_checksums_r_faultfree. Qed.
+Print Assumptions C12_fixed_scan_faultfree.
+
+Theorem C12_fixed_scan_success_flags : forall (H : N -> bytes -> bytes) h f fl st rs ss err r,
+  scan_wf h f -> h_detached h = false ->
+  validate_checksums_r H h f fl st rs ss err = Some r -> s_ret (f_res r) = 1%Z ->
+  expected_ret H h f = 1%Z /\ s_flags (f_res r) = expected_flags H h f /\ f_err r = false.
+Proof. exact scan_r_success_full. Qed.
+Print Assumptions C12_fixed_scan_success_flags.
+
+Theorem C12_fixed_scan_flags_sound_every_schedule : forall (H : N -> bytes -> bytes) h f fl st rs ss err r,
+  scan_wf h f -> h_detached h = false ->
+  validate_checksums_r H h f fl st rs ss err = Some r ->
+  flags_sound_or_old H h f fl (s_flags (f_res r)).
+Proof. exact scan_r_flags_sound. Qed.
+Print Assumptions C12_fixed_scan_flags_sound_every_schedule.
+
+(** the counter-example schedule on the fixed scan: chunk 2 is read at its own offset -> failed;
+    and when the re-seek itself fails the call returns 0 *)
+Example C12_ex_fixed_scan_short_read :
+  (match validate_checksums_r toyH sx_h sx_f [0; 0; 0]%Z (opened sx_h) [RGive 1] [] false with
+   | Some r => Some (s_ret (f_res r), s_flags (f_res r), f_err r) | None => None end) = Some ((-1)%Z, [1; -1; -1]%Z, false) /\
+  (match validate_checksums_r toyH sx_h sx_f [0; 0; 0]%Z (opened sx_h) [RGive 1] [true; false] false with
+   | Some r => Some (s_ret (f_res r), s_flags (f_res r), f_err r) | None => None end) = Some (0%Z, [1; -1; 0]%Z, true).
+Proof. vm_compute. split; reflexivity. Qed.
+
+
+(** * T12.2 the reader under every schedule of read(2) outcomes (short counts and errors at any
+    call): if open, the reads until one returns 0 and zck_close all report success, the output is
+    the specification's content of the file - i.e. what the fault-free run delivers. *)
+From ZV Require Import Format.ParseImpl Read.ReadSpec Read.CompRead Read.ReadProofs Io.ReadFaults Io.ReadFaultsProofs.
+Theorem C12_reader_faults :
+  forall (H : N -> bytes -> bytes) (zdecomp : option bytes -> bytes -> N -> option bytes) p f h fuel sched sizes out st' s' st2,
+  wf_bytes f -> parse_impl H p f = POk h ->
+  Forall (fun n => 0 < n) sizes ->
+  read_all_f H zdecomp h fuel sched (open_state h f) sizes [] = (out, Some true, st', s') ->
+  zck_close H h st' = (true, st2) ->
+  spec_verify H h f = true /\ spec_decode zdecomp h f = Some out.
+Proof.
+  intros H zdecomp p f h fuel sched sizes out st' s' st2 Hwf Hp.
+  destruct (header_facts H p f h Hwf Hp) as (A & B & C).
+  exact (read_faults H zdecomp h f fuel sched sizes out st' s' st2 A B C).
+Qed.
+Print Assumptions C12_reader_faults.
